@@ -27,8 +27,14 @@ import (
 
 type M = map[string]any
 
+// onDie removes the scratch directory when the run is abandoned (os.Exit skips deferred calls).
+var onDie func()
+
 func die(format string, a ...any) {
 	fmt.Fprintf(os.Stderr, "vcheck: "+format+"\n", a...)
+	if onDie != nil {
+		onDie()
+	}
 	os.Exit(2)
 }
 
@@ -56,6 +62,7 @@ func main() {
 	code := 2
 	func() {
 		defer env.Close()
+		onDie = env.Close
 		switch pos[0] {
 		case "dump":
 			// dump <ID> <file>: write the generated programs (debugging aid)
@@ -148,6 +155,16 @@ func readLines(path string) ([][]byte, error) {
 }
 
 // validate executes one batch of programs and validates the trace with TLC.
+// tolerantObserver: Float64/Float32/Float go through the documented-as-naive conversion to big.Float, whose guard
+// precision depends on the word size (the recorded double-rounding finding lives here): the two builds may return
+// neighbouring floats for the same Decimal.
+func tolerantObserver(line []byte) bool {
+	var ev struct {
+		Op string `json:"op"`
+	}
+	return json.Unmarshal(line, &ev) == nil && (ev.Op == "Float64" || ev.Op == "Float32" || ev.Op == "Float")
+}
+
 // tolerantOp reports whether the event is a conversion whose result the properties pin down only up to a
 // tolerance, so that builds with different word sizes may differ.
 func tolerantOp(line []byte) bool {
@@ -160,7 +177,7 @@ func tolerantOp(line []byte) bool {
 		return false
 	}
 	switch ev.Op {
-	case "SetFloat", "SetFloat64", "Float", "Ctx.NewFloat", "Ctx.NewFloat64":
+	case "SetFloat", "SetFloat64", "Ctx.NewFloat", "Ctx.NewFloat64":
 		return true
 	case "SetBitsExp", "SetBitsExpSelf":
 		return true // a precision-0 receiver gets as many digits as the slice has words x digits per word
@@ -248,7 +265,14 @@ func validate(env *run.Env, bin string, traceMod string, idx int, progs []gen.Pr
 	}
 	// other build configurations: the event log must be identical, line for line (C07)
 	var buildDiffs []badEntry
+	only64 := false
+	for _, p := range progs {
+		only64 = only64 || p.Only64
+	}
 	for _, ob := range others {
+		if only64 && strings.HasPrefix(ob.tag, "arch=") {
+			continue
+		}
 		of := filepath.Join(env.Scratch, fmt.Sprintf("b%d.%s.ev.ndjson", idx, ob.tag))
 		if r.err = env.Exec(ob.bin, pf, of, execTimeout(env)); r.err != nil {
 			return r
@@ -268,6 +292,9 @@ func validate(env *run.Env, bin string, traceMod string, idx int, progs []gen.Pr
 			}
 			if !same && abs && i < len(lines) && i < len(ol) {
 				same = skipProg || abstractEvent(lines[i], 19) == abstractEvent(ol[i], 9) || bytes.Contains(ol[i], []byte(`"skip32":true`))
+				if !same && tolerantObserver(lines[i]) {
+					same = true // no register changes: only this event is left uncompared
+				}
 				if !same && tolerantOp(lines[i]) {
 					// the property allows this conversion a tolerance (SetFloat: dozens of ulps, SetFloat64 and binary
 					// literals: one ulp when inexact): two word sizes may legitimately differ, and the programs' states
@@ -364,7 +391,9 @@ func simPrograms(env *run.Env, sp *simSpec, thor bool) ([]gen.Program, error) {
 			continue
 		}
 		if rec.Lvl == 2 || cur == nil {
-			progs = append(progs, gen.Program{ID: fmt.Sprintf("sim-%d", len(progs)+1), Regs: []string{"r0", "r1", "r2"}})
+			// Only64: random walks over the extreme exponents add across gaps of 2^31 digits and more; the library
+			// allocates a buffer that long (1-4 GB), which a 32-bit process cannot
+			progs = append(progs, gen.Program{ID: fmt.Sprintf("sim-%d", len(progs)+1), Regs: []string{"r0", "r1", "r2"}, Only64: true})
 			cur = &progs[len(progs)-1]
 		}
 		cur.Steps = append(cur.Steps, rec.Step)
